@@ -308,7 +308,7 @@ theorem stub_is_makefunc (E : Env) (s : AState) (b f : Nat) (v : RValue) (code :
     (h : Inv E s.p) (hnew : (getM s b f).whenRes = none)
     (hok : (astepO E s (.ret b f v code res)).2 = .ok g) :
     call E (astep E s (.ret b f v code res)).p f = .enter { code := code, ctx := .stub b f } v.ptr ∧
-    see E (astep E s (.ret b f v code res)) f = .stubRet res := by
+    see E (astep E s (.ret b f v code res)) f = .stubRet [res] := by
   have hr := rdx_is_closure E s.p f v { code := code, ctx := .stub b f }
   have hcan : (getM s b f).canceled = false := by
     unfold getM
@@ -332,12 +332,12 @@ theorem stub_is_makefunc (E : Env) (s : AState) (b f : Nat) (v : RValue) (code :
     | errAlreadyPatched => cases hok
     | illFormed => cases hok
 
-/-- a later `Return` on the same mocker only replaces the `When`'s result; the installed closure is unchanged
-    and now yields the new result (mocker.go:548 → when.go `Return`) -/
-theorem return_again_updates (E : Env) (s : AState) (b f : Nat) (v : RValue) (code : Addr) (res r0 : Toks)
+/-- a later `Return` on the same mocker only hands one more result to the existing `When` (mocker.go:548 →
+    when.go `Return`); nothing is re-applied, the installed closure is unchanged -/
+theorem return_again_appends (E : Env) (s : AState) (b f : Nat) (v : RValue) (code : Addr) (res : Toks) (r0 : List Toks)
     (hold : (getM s b f).whenRes = some r0) :
     (astep E s (.ret b f v code res)).p = s.p ∧
-    callbackOf (astep E s (.ret b f v code res)) b f = .stubRet res := by
+    callbackOf (astep E s (.ret b f v code res)) b f = .stubRet (r0 ++ [res]) := by
   have hcan : (getM s b f).canceled = false := by
     unfold getM
     split
